@@ -19,6 +19,7 @@
 // Signatures: dagrid.hpp (make_sig) for single retrievals; check_list below for index lists.
 #include "dagrid.hpp"
 
+#pragma GCC diagnostic ignored "-Wdeprecated-declarations"
 using namespace nix;
 using namespace dag;
 
@@ -217,6 +218,16 @@ static void run_table(Shared &S, MT &m, const std::vector<Row> &rows, bool has_e
             }
             }
             if (!is_goc) { vf::count("retrievals"); in.match = MODES[mi]; check_retrieval(P, site + at, in, x[mi], g, [&] { return goc[mi]; }); }
+            // the deprecated spellings of the single-index reference retrieval (util:: forms default to Inclusive)
+            e = static_cast<int>((k + static_cast<long>(i) + 1) % 4);
+            mi = EXC;
+            switch (e) {
+            case 0: site = "MultiTag::retrieveData(index,ref index) [deprecated]"; in.mode = "default(Exclusive)"; g = observe([&] { return m.tag.retrieveData(i, 0); }); break;
+            case 1: site = "util::retrieveData(MultiTag,index,ref index) [deprecated]"; in.mode = "default(Inclusive)"; mi = INC; g = observe([&] { return util::retrieveData(m.tag, i, 0); }); break;
+            case 2: site = "util::retrieveData(MultiTag,index,array,match) [deprecated]"; in.mode = "Exclusive"; g = observe([&] { return util::retrieveData(m.tag, i, da, RangeMatch::Exclusive); }); break;
+            default: site = "util::retrieveData(MultiTag,index,ref index,match) [deprecated]"; in.mode = "Inclusive"; mi = INC; g = observe([&] { return util::retrieveData(m.tag, i, 0, RangeMatch::Inclusive); }); break;
+            }
+            vf::count("retrievals"); in.match = MODES[mi]; check_retrieval(P, site + at, in, x[mi], g, [&] { return goc[mi]; });
             e = static_cast<int>((k + static_cast<long>(i) + 2) % 5);
             mi = EXC;
             switch (e) {
@@ -301,6 +312,16 @@ static void run_table(Shared &S, MT &m, const std::vector<Row> &rows, bool has_e
             case 1: site = "MultiTag::taggedData(indices,name)"; got = observe_list([&] { return m.tag.taggedData(req, "ref"); }, exc, what); break;
             case 2: site = "util::taggedData(MultiTag,indices,ref index,match)"; mode = "Inclusive"; mi = 0; got = observe_list([&] { return util::taggedData(m.tag, req, 0, RangeMatch::Inclusive); }, exc, what); break;
             default: site = "util::taggedData(MultiTag,indices,array)"; got = observe_list([&] { return util::taggedData(m.tag, req, da); }, exc, what); break;
+            }
+            check_list("taggedData(MultiTag, index list)", site, lists[li].cls, mode, lists[li].v, N, single[mi], got, exc, what, table);
+            // ... and one deprecated spelling of the list retrieval
+            e = static_cast<int>((k + static_cast<long>(li) + 1) % 4);
+            req = lists[li].v; got.clear(); exc.clear(); what.clear(); mode = "default(Exclusive)"; mi = 1;
+            switch (e) {
+            case 0: site = "MultiTag::retrieveData(indices,ref index) [deprecated]"; got = observe_list([&] { return m.tag.retrieveData(req, 0); }, exc, what); break;
+            case 1: site = "MultiTag::retrieveData(indices,name) [deprecated]"; got = observe_list([&] { return m.tag.retrieveData(req, "ref"); }, exc, what); break;
+            case 2: site = "util::retrieveData(MultiTag,indices,ref index) [deprecated]"; mode = "default(Inclusive)"; mi = 0; got = observe_list([&] { return util::retrieveData(m.tag, req, 0); }, exc, what); break;
+            default: site = "util::retrieveData(MultiTag,indices,array,match) [deprecated]"; mode = "Exclusive"; got = observe_list([&] { return util::retrieveData(m.tag, req, da, RangeMatch::Exclusive); }, exc, what); break;
             }
             check_list("taggedData(MultiTag, index list)", site, lists[li].cls, mode, lists[li].v, N, single[mi], got, exc, what, table);
         }
